@@ -228,6 +228,16 @@ theorem compileExprH_ext (env : CEnv) : ∀ (e : CExpr) (st : HSt) (ce : CE) (st
       simp only at h
       injection h with h; injection h with _ h; subst h
       exact Ext.push _ _ (popPending_rest_subset _ _) rfl rfl rfl
+  | .callx name exts args ret params, st, ce, st', h => by
+      rw [compileExprH] at h
+      obtain ⟨⟨cargs, st1⟩, h1, h⟩ := bind_ok h
+      refine (compileArgsH_ext env args _ _ _ _ h1).trans ?_
+      simp only at h
+      injection h with h; injection h with _ h; subst h
+      exact Ext.push _ _ (popPending_rest_subset _ _) rfl rfl rfl
+  | .xmacro name exts ret, st, ce, st', h => by
+      rw [compileExprH] at h
+      injection h with h; injection h with _ h; subst h; exact Ext.refl _
   | .reg n k t, st, ce, st', h => by
       simp only [compileExprH] at h
       obtain ⟨r, _, h⟩ := bind_ok h
